@@ -52,8 +52,10 @@ MANIFEST = {
             "layout from offset zero, nothing shared in either direction); raw bytes advance all later label positions by their full "
             "length (prefix-sum layout, C01); %include_hex of a file holding the hex text of bs, surrounded by any white space, yields exactly "
             "the raw bytes bs (C12_include_hex_exact); the TEXT of a directive (blanks, quoted path with backslash-escaped backslashes and quotes, any layout) parses to "
-            "the directive node with exactly the unescaped path (C12_text). PARTIAL: 'equivalent to pasting the text' is proved at item level; the text-level paste "
-            "lemma about the grammar is exercised, not proved.",
+            "the directive node with exactly the unescaped path (C12_text). TEXT-LEVEL PASTE (C12_import_is_paste): a source text A; %import(f); B where f holds the text of F (all in the whole-language text family, "
+            "no further file directives) is preprocessed to exactly the raw ops of the text A; F; B — the import only adds the containment check and the "
+            "read of f to the trace; with %include the ops of F arrive as one nested scope (C12_include_is_scope). Outside the family (a file ending inside "
+            "an unterminated %macro) the paste reading is false.",
     "note": "Trusted: Lean kernel; Asm/Ingest.lean (Root, Program, preprocess, resolve_and_ingest) and its concrete Tree file system tied "
             "to etk_asm::ingest by the differential run on generated directory trees materialised on disk; relative-path resolution is "
             "modelled by PathC (Rust Path::join/parent on Unix).",
